@@ -6,7 +6,12 @@ namespace riddle
     using namespace ast;
 
     RIDDLE_EXPORT parser::parser(std::istream &is) : lex(is) {}
-    RIDDLE_EXPORT parser::~parser() {}
+    RIDDLE_EXPORT parser::~parser()
+    {
+        // we delete the tokens (the abstract syntax tree keeps its own copies)..
+        for (const auto &c_tk : tks)
+            delete c_tk;
+    }
 
     token *parser::next()
     {
@@ -124,7 +129,7 @@ namespace riddle
 
     typedef_declaration *parser::_typedef_declaration()
     {
-        id_token *pt = nullptr;
+        std::string pt;
         expression *e;
 
         if (!match(TYPEDEF_ID))
@@ -133,19 +138,19 @@ namespace riddle
         switch (tk->sym)
         {
         case BOOL_ID:
-            pt = new id_token(0, 0, 0, 0, BOOL_KEYWORD);
+            pt = BOOL_KEYWORD;
             break;
         case INT_ID:
-            pt = new id_token(0, 0, 0, 0, INT_KEYWORD);
+            pt = INT_KEYWORD;
             break;
         case REAL_ID:
-            pt = new id_token(0, 0, 0, 0, REAL_KEYWORD);
+            pt = REAL_KEYWORD;
             break;
         case TP_ID:
-            pt = new id_token(0, 0, 0, 0, TP_KEYWORD);
+            pt = TP_KEYWORD;
             break;
         case STRING_ID:
-            pt = new id_token(0, 0, 0, 0, STRING_KEYWORD);
+            pt = STRING_KEYWORD;
             break;
         default:
             error("expected primitive type..");
@@ -161,7 +166,7 @@ namespace riddle
         if (!match(SEMICOLON_ID))
             error("expected ';'..");
 
-        return new_typedef_declaration(n, *pt, e);
+        return new_typedef_declaration(n, id_token(0, 0, 0, 0, pt), e);
     }
 
     enum_declaration *parser::_enum_declaration()
